@@ -73,6 +73,9 @@ def check(ctx):
 
 
 def r01_1_filter(ctx, m, func, rule):
+    from ..core import inline_bool_temps
+
+    func = inline_bool_temps(func)  # `overlaps = s < qe and qs < e; if overlaps:` is the test itself
     site = cc.find_overlap_site(ctx, func, m.search, rule)
     rows = 0
     bad = None
@@ -117,6 +120,14 @@ def r01_1_filter(ctx, m, func, rule):
                         for o in [c.left] + list(c.comparators):
                             if not isinstance(o, ast.Constant) and site.atom_of(o) is None and not (isinstance(o, ast.UnaryOp) and isinstance(o.operand, ast.Constant)):
                                 unknown.add(norm(o)[:40])
+        # a test that is a bare name bound to something other than constants (a boolean computed elsewhere) is not understood either
+        for p in site.paths:
+            for t, _ in p.tests():
+                t0 = t.operand if isinstance(t, ast.UnaryOp) else t
+                if isinstance(t0, ast.Name):
+                    ds = site.local.get(t0.id, []) + site.hoisted.get(t0.id, [])
+                    if not ds or not all(isinstance(d_, ast.Constant) for d_ in ds):
+                        unknown.add(f"<{t0.id}>")
         plain_flags = {u for u in unknown if u.isidentifier()}  # e.g. the `cases` code: a flag variable, not an interval end
         if bad is None or (unknown - plain_flags):
             raise AnalysisError(rule, func.where(site.loop), f"overlap filter: only atoms {sorted(used)} recognised in the guards (not understood: {sorted(unknown)[:4]})")
@@ -483,12 +494,25 @@ def r01_3(ctx, m):
             has_cg = None
             rev = False
             consts = {}
+            flags = {}  # boolean temporaries bound on this path to a test (`reverse = rec.strand == "-"`): read as that test
+            import copy as _copy
+
+            class _Flags(ast.NodeTransformer):
+                def visit_Name(self, n_):
+                    return _copy.deepcopy(flags[n_.id]) if isinstance(n_.ctx, ast.Load) and n_.id in flags else n_
+
             for e in p.events:
                 if e.kind == "stmt" and isinstance(e.node, ast.Assign) and isinstance(e.node.targets[0], ast.Name):
                     if isinstance(e.node.value, ast.Constant) and isinstance(e.node.value.value, bool):
                         consts[e.node.targets[0].id] = e.node.value.value
                     else:
                         consts.pop(e.node.targets[0].id, None)
+                    if isinstance(e.node.value, (ast.Compare, ast.BoolOp)) or (isinstance(e.node.value, ast.UnaryOp) and isinstance(e.node.value.op, ast.Not)):
+                        flags[e.node.targets[0].id] = _Flags().visit(_copy.deepcopy(e.node.value))
+                    else:
+                        flags.pop(e.node.targets[0].id, None)
+                if e.kind == "test" and flags and any(isinstance(x, ast.Name) and x.id in flags for x in ast.walk(e.node)):
+                    e = type(e)(kind="test", node=ast.fix_missing_locations(_Flags().visit(_copy.deepcopy(e.node))), pol=e.pol) if hasattr(e, "_replace") is False and False else _retest(e, ast.fix_missing_locations(_Flags().visit(_copy.deepcopy(e.node))))
                 if e.kind == "test":
 
                     def known(sub):
@@ -550,6 +574,17 @@ def r01_3(ctx, m):
         ctx.check(bad is None, "R01.3", f.where(st), "on every path the cg field is replaced by reverse_cigar(parsed CIGAR) exactly when the emitted strand differs from the input strand (and the record has a CIGAR)", key_of(f, f"cigar-strand:{bad[1] if bad else ''}"), paths=n, flipping_paths=n_flip, **({"path": bad[0].show(), "why": bad[1]} if bad else {}))
         if bad is None:
             ctx.require_count("R01.3", n_flip, 1, f.where(st), "paths on which the strand flips")
+
+
+class _TestEv:
+    """a test event whose expression has been rewritten (flag temporaries expanded)"""
+
+    def __init__(self, node, pol):
+        self.kind, self.node, self.pol = "test", node, pol
+
+
+def _retest(e, node):
+    return _TestEv(node, e.pol)
 
 
 def implied(t, pol, known):
@@ -738,18 +773,25 @@ def r01_46_unstable(ctx, m):
         forms, ev, cols = path_forms(p, rec, schema, parts)
         minus = None
         split = None
+        flagdefs = {}
         for e in p.events:
+            if e.kind == "stmt" and isinstance(e.node, ast.Assign) and len(e.node.targets) == 1 and isinstance(e.node.targets[0], ast.Name) and isinstance(e.node.value, ast.Compare):
+                flagdefs[e.node.targets[0].id] = e.node.value  # `reverse = rec.strand == "-"`
             if e.kind == "test":
-                t, tp = canon_test(e.node, e.pol)
+                node_, pol_ = e.node, e.pol
+                while isinstance(node_, ast.UnaryOp) and isinstance(node_.op, ast.Not):
+                    node_, pol_ = node_.operand, not pol_
+                if isinstance(node_, ast.Name) and node_.id in flagdefs:
+                    node_ = flagdefs[node_.id]
+                t, tp = canon_test(node_, pol_)
                 if t == f"{rec}.strand == '-'":
                     minus = tp
                 elif t == f"{rec}.strand == '+'":
                     minus = not tp
-                elif isinstance(e.node, ast.Name) or (isinstance(e.node, ast.UnaryOp) and isinstance(e.node.operand, ast.Name)):
+                elif isinstance(node_, ast.Name):
                     split = tp if t.isidentifier() else split
         if minus is None or split is None:
-            bad = (p, "cannot classify the path (input strand / interval-path flag not examined)")
-            break
+            raise AnalysisError("R01.6", f.where(st), "cannot classify a path through the converter (input strand / interval-path flag not examined in a form this rule reads)")
         kinds.add(("minus" if minus else "plus") + ("-split" if split else "-bare"))
         # loop-carried symbols
         syms = set()
@@ -834,6 +876,9 @@ def r01_46_unstable(ctx, m):
     if not sites and any(isinstance(l, ast.For) and isinstance(l.iter, ast.Call) and norm(l.iter.func) == "range" and len(l.iter.args) == 3 and isinstance(const_value(l.iter.args[2], None), int) and const_value(l.iter.args[2]) < 0 for l in walk_own(f.node)):
         raise AnalysisError("R01.4", f.where(), "the segment list is walked by a descending index loop: the orientation of the emission is not read from it")
     if not sites:
+        any_rev = [n for n in walk_own(f.node) if (isinstance(n, ast.Call) and isinstance(n.func, ast.Name) and n.func.id == "reversed") or (isinstance(n, ast.Call) and isinstance(n.func, ast.Attribute) and n.func.attr == "reverse") or (isinstance(n, ast.Subscript) and isinstance(n.slice, ast.Slice) and n.slice.step is not None and const_value(n.slice.step, None) == -1)]
+        if any_rev:
+            raise AnalysisError("R01.4", f.where(any_rev[0]), f"something is reversed (`{norm(any_rev[0])[:50]}`) but not the list `{seglist}` the kept segments are appended to: the orientation of the emission is not read from it")
         ctx.violated("R01.4", f.where(), "the segments found for an interval are never reversed: a reverse-orientation interval is emitted in forward order", key_of(f, "reversed-emission:none"))
     else:
         verdict = None
